@@ -432,3 +432,27 @@ PLAN['C08'] = {
     'quick': lambda seed: c08_runs(1, False),
     'thorough': lambda seed: c08_runs(12, True),
 }
+
+
+# ------------------------------------------------------------------------------------------------ independent objects on two threads
+# Every statement about "a grid", "a flow graph", "an eroder" speaks of that object and its inputs; what an independent object
+# of the same type does on another thread at the same moment is not an input. h_conc drives two object families that share
+# nothing (a) one after the other and (b) at the same time on two threads: (b) must reproduce (a) bit for bit (asan flavour), and
+# ThreadSanitizer must see no access shared between the families (function-local statics, class statics, lazy initialisation).
+def _indep(pid, kinds_q, kinds_t, floor_counter):
+    q0, t0 = PLAN[pid]['quick'], PLAN[pid]['thorough']
+    PLAN[pid]['quick'] = lambda seed: q0(seed) + runs('h_conc', kinds_q[:1], 'asan', 1, 10, prop=pid, case_timeout=300) \
+                                               + runs('h_conc', kinds_q[-1:], 'tsan', 1, 8, ['--x-delays', '0'], prop=pid, case_timeout=300)
+    PLAN[pid]['thorough'] = lambda seed: t0(seed) + runs('h_conc', kinds_t, 'asan', 1, 200, prop=pid, case_timeout=600) \
+                                                  + runs('h_conc', kinds_t, 'tsan', 1, 80, ['--x-delays', '0'], prop=pid, case_timeout=900)
+    PLAN[pid]['rule'] += (' Plus (h_conc, ASan and TSan flavours) two independent object families driven through the same steps one after '
+                          'the other and at the same time on two threads: the concurrent results must equal the sequential ones bit for '
+                          'bit, and ThreadSanitizer must report no access shared between the families.')
+    PLAN[pid]['floor'] = list(PLAN[pid].get('floor', [])) + [floor_counter]
+
+
+_indep('C07', ['raster_queen', 'trimesh'], ['raster_queen', 'raster_rook_nc', 'profile_nc', 'trimesh'], 'indep.kind.grid_queries')
+_indep('C09', ['raster_queen', 'trimesh'], ['raster_queen', 'raster_rook_nc', 'profile', 'trimesh'], 'indep.kind.routes')
+_indep('C12', ['trimesh', 'raster_queen'], ['raster_queen', 'profile', 'trimesh'], 'indep.kind.spl')
+_indep('C13', ['raster_queen', 'profile'], ['raster_queen', 'profile', 'trimesh'], 'indep.kind.spl')
+_indep('C14', ['raster_queen', 'raster_rook_nc'], ['raster_queen', 'raster_rook_nc'], 'indep.kind.adi')
